@@ -28,7 +28,7 @@ TIERS = {
     # wire_*: bounds of the WowmWire exploration that produces the reference behaviours
     # (quick = first profile only); nshards x workers TLC processes for either stage
     "quick": dict(wire_nprof=1, wire_maxlen=2, wire_deep=False, nshards=4, workers=2, timeout=900),
-    "thorough": dict(wire_nprof=6, wire_maxlen=3, wire_deep=True, nshards=6, workers=2, timeout=2400),
+    "thorough": dict(wire_nprof=3, wire_maxlen=3, wire_deep=True, nshards=6, workers=2, timeout=2400),
 }
 
 REQUIRED_ACTIONS = ["Add", "AddRet", "Helper", "PushSubtree", "PopSubtree", "SetLen", "If", "PvSwitch", "For",
@@ -209,6 +209,12 @@ def run_dissector(wd, recs, env, nshards, workers, timeout, tag):
 
 
 def fragments_dir():
+    # C17_FRAGMENTS=<dir with the five .txt files>: judge that text instead of the regenerated one
+    # (reproducing a stored witness against the committed text: git -C /repo archive HEAD
+    # wow_message_parser/tests/wireshark | tar -x -C /tmp/x)
+    override = os.environ.get("C17_FRAGMENTS")
+    if override:
+        return override, []
     m = regen.regen()
     if m["rc"] != 0:
         raise C.ToolError("generator failed on the current tree (rc %s): %s" % (m["rc"], m["stderr_tail"][-500:]))
@@ -335,6 +341,7 @@ def evidence(a, v, counts, tier, wall):
                                                      "undeclared_var", "undeclared_const", "wrong_const")},
         "info_unreferenced_constants_with_other_value": a["declared"]["wrong_unreferenced"],
         "info_unbalanced_subtrees": sum(1 for r in a["reports"].values() if r["unbalanced"]),
+        "info_fields_registered_narrower_than_added": sorted({h for r in a["reports"].values() for h in r["misfit"]}),
         "fragment_drift_vs_repo": a["drift"],
         "known_finding_hits": dict(v.known_hits),
         "actions_fired": a["coverage"],
